@@ -1004,6 +1004,9 @@ class Interp:
             elif "." in name or name:
                 self.nresolved += 1
             r = ("call", name, pos, kw)
+            if name in ALLOCATORS:
+                # fresh object per call site: keep allocation sites apart (two torch.zeros(shape) are two arrays)
+                r = ("call", name, pos, kw, ("site", fn.qualname, node.lineno, node.col_offset))
             self._emit(p, Event("call", fn, node, name=name, pos=pos, kw=kw, result=r))
             return [(p, r)]
         if kind == "method":
@@ -1164,6 +1167,10 @@ class Interp:
         return res
 
 
+ALLOCATORS = {"torch.zeros", "torch.ones", "torch.empty", "torch.full", "torch.zeros_like", "torch.ones_like",
+              "torch.empty_like", "torch.full_like", "numpy.zeros", "numpy.empty", "numpy.ones"}
+
+
 # ------------------------------------------------------------------- helpers
 def strip_typed(t):
     while isinstance(t, tuple) and t and t[0] == "typed":
@@ -1270,6 +1277,16 @@ def show(t, depth: int = 0) -> str:
     if depth > 12:
         return "…"
     k = t[0]
+    if not isinstance(k, str):
+        return "(" + ", ".join(show(x, depth + 1) if isinstance(x, tuple) else repr(x) for x in t) + ")"
+    if k == "poly":
+        parts = []
+        for atoms, c in t[1]:
+            a = "·".join(show(x, depth + 1) for x in atoms)
+            parts.append(f"{c}·{a}" if a else f"{c}")
+        return "(" + " + ".join(parts) + ")"
+    if k == "inv":
+        return f"1/{show(t[1], depth + 1)}"
     s = lambda x: show(x, depth + 1)  # noqa: E731
     if k == "const":
         return repr(t[1])
